@@ -83,3 +83,12 @@ HARNESS(h_refine) {
     }
     dump_cell(io, *c);
 }
+
+// C01/O5: the ordering key of std::set<edge>. iin: [a, b, c, d] -> iout: hash(a,b), (edge(a,b) < edge(c,d)), (edge(a,b) == edge(c,d))
+HARNESS(h_edge_key) {
+    edge e1((unsigned) io->iin[0], (unsigned) io->iin[1]);
+    edge e2((unsigned) io->iin[2], (unsigned) io->iin[3]);
+    OI(e1.hash());
+    OI(e1 < e2);
+    OI(e1 == e2);
+}
